@@ -7,3 +7,17 @@ package arch
 //@ func GetInfo(name string) (*Info, error)   properties C07 C12 C19
 //@   ensures @ok {C07} result1 == nil ==> result0 != nil && len(result0.SyscallNames) > 0
 //@   ensures @err {C07} result1 != nil ==> result0 == nil
+//@   let key = ite(name == "", runtime.GOARCH, tolower(name))
+//@   ensures @lookup {C12} result1 == nil ==> has(arches, key) && result0 == arches[key]
+//@   ensures @unsupported {C12 C19} (result1 != nil) == (!has(arches, key) || len(arches[key].SyscallNames) == 0)
+
+// invert: under the precondition (no two numbers with the same name) the result is the inverse map, whatever the
+// iteration order (the postcondition determines the result: deterministic).
+//@ func invert(in map[int]string) map[string]int   properties C12 C13
+//@   requires @injective {C12} forallk(a, in, forallk(b, in, has(in, a) && has(in, b) && in[a] == in[b] ==> a == b))
+//@   ensures @inverse {C12 C13} forallk(k, in, has(in, k) ==> has(result, in[k]) && result[in[k]] == k)
+//@   ensures @domain {C12 C13} forallk(s, result, has(result, s) ==> existsk(k, in, has(in, k) && in[k] == s))
+//@   loop 1 binder vis
+//@     invariant @nonnil nonnil(out)
+//@     invariant @inverse forallk(k, in, vis[k] ==> has(out, in[k]) && out[in[k]] == k)
+//@     invariant @domain forallk(s, out, has(out, s) ==> existsk(k, in, vis[k] && in[k] == s))
